@@ -12,18 +12,19 @@ pid,d=sys.argv[1],sys.argv[2]
 for l in open('/verif/properties.jsonl'):
     p=json.loads(l)
     if p['id']==pid: break
-print(f"""You are a careful Rust engineer playing the role of a *fault seeder* for a verification study. You have your own scratch git worktree of the repository hydro-project/hydro (pinned commit) at `{d}/repo` — work ONLY inside `{d}` (never touch `/repo` or `/verif`, never read `/verif`). The sandbox is offline: use `cargo ... --offline` (env `CARGO_NET_OFFLINE=true`); everything needed is in the local cargo cache; set `CARGO_TARGET_DIR={d}/target` so build output stays inside your scratch directory.
+print(f"""You are a careful Rust engineer playing the role of a *fault seeder* for a verification study. You have your own scratch git worktree of the repository hydro-project/hydro (pinned commit) at `{d}/repo` — work ONLY inside `{d}` (never touch `/repo` or `/verif`, never read `/verif`). The sandbox is offline: use `cargo ... --offline` (env `CARGO_NET_OFFLINE=true`); everything needed is in the local cargo cache; set `CARGO_TARGET_DIR={d}/target` so build output stays inside your scratch directory (the machine is shared and busy: build only the crates you need with `-p`, never the whole workspace).
 
 Here is a semantic property of the repository that should hold (JSON record: title, statement, quantifier, why ordinary tests cannot settle it, anchors = where in the code it lives):
 
 {json.dumps(p, indent=1)}
 
-Your job: produce ONE realistic change to the repository's source (not to its tests) that **breaks this property** while the code **still compiles** and the **existing tests still pass** (at least the test suites of the crates you touched and their direct dependents, run with `cargo test -p <crate> --offline`; say exactly what you ran). The change must look like a plausible mistake or "optimisation" a developer could make — and it must need something *specific* to manifest: a particular interleaving or placement of `Pending`, a crash/fault/cancellation at a particular point, a multi-step sequence of operations, an unusual input, or two cooperating sites that each look fine alone. Do NOT produce a change that ordinary use would expose at once (e.g. every call returns garbage), and do not just delete a feature.
+Your job: produce TWO different, independent realistic changes (variant A and variant B, each on its own — deliver them as separate patches) to the repository's source (not to its tests) that each **break this property** while the code **still compiles** and the **existing tests still pass** (at least the test suites of the crates you touched, run with `cargo test -p <crate> --offline`; say exactly what you ran; if a crate's tests are very slow, run the relevant subset and say so). Each change must look like a plausible mistake or "optimisation" a developer could make — and it must need something *specific* to manifest: a particular interleaving or placement of `Pending`, a crash/fault/cancellation at a particular point, a multi-step sequence of operations, an unusual input or configuration, or two cooperating sites that each look fine alone. Do NOT produce a change that ordinary use would expose at once, and do not just delete a feature. Make the two variants break *different* clauses or different code paths of the property.
 
-Deliver, in `{d}/out/`:
-1. `patch.diff` — `git diff` of your change against the worktree's HEAD (source change only; must apply with `git apply` to a clean checkout of the same commit).
-2. a **demonstration**: a small test or program (e.g. `demo_test.rs` plus a `README.md` saying where to put it / how to run it, or a self-contained cargo project under `{d}/out/demo/` that path-depends on `{d}/repo/...`) that **fails with your change and passes without it**. Run it both ways yourself and record the commands and the outputs in `README.md`.
+Deliver, in `{d}/out/A/` and `{d}/out/B/`:
+1. `patch.diff` — `git diff` of that change alone against the worktree's HEAD (source change only; must apply with `git apply` to a clean checkout of the same commit).
+2. a **demonstration**: a small test or program (preferably a self-contained cargo project under `out/A/demo/` that path-depends on crates under `{d}/repo/...`, with its own `[workspace]` table, a copy of `{d}/repo/Cargo.lock` and `rust-toolchain.toml`) that **fails with your change and passes without it**, plus `run_both_ways.sh` that runs it at clean HEAD (expect pass), applies patch.diff, runs it again (expect fail) and restores the worktree. Run it yourself and record commands and outputs in `README.md`.
 3. `meta.json`: {{"property": "{pid}", "summary": "<what the change does>", "needs_to_manifest": "<the specific interleaving/fault/sequence/input it needs>", "files_touched": [...], "tests_run": ["<commands>"], "demo_cmd": "<command>"}}.
 
-Keep the change small (a few lines). When done, leave the worktree with your change applied, and reply with a short summary: the diff, why existing tests do not notice it, and what is needed to trigger it. Do not clean up `{d}`; I will.""")
+Keep each change small (a few lines). When done, leave the worktree clean (HEAD, no change applied) and reply with a short summary per variant: the diff, why existing tests do not notice it, and what is needed to trigger it. Do not delete `{d}`; I will.""")
+
 PY
